@@ -52,7 +52,7 @@ def generate(rng, tier):
         spec = encworld.gen_message_spec(rng, big_ok=(tier == 'thorough' and rng.random() < 0.15))
         if r < 0.68:
             steps.append({'id': sid, 'op': 'encrypt', 'msg': spec, 'recips': recips, 'cipher': rng.choice(encworld.CIPHERS),
-                          's2k_hash': rng.choice([8, 8, 10, 9, 11, 2, 1]),
+                          's2k_hash': rng.choice([8, 8, 10, 9, 11, 2, 1, 3]),
                           'supplied_sk': rng.random() < 0.25, 'signed_by': rng.choice(names) if rng.random() < 0.3 else None,
                           'perturb': rng.sample(['armor', 'reframe_old', 'reframe_5', 'marker', 'partial'], rng.choice([0, 0, 1, 2]))})
         else:
